@@ -65,7 +65,7 @@ def run(ctx, replay=None):
             if name == 'c':
                 # two requesters: cover the transitions in which a second caller is issued, waits or is served
                 only = lambda e: e[1] in ('Issue2', 'Enter2') or g.states[e[0]]['wait']['b'] != 'nofile'  # noqa: E731
-                max_paths = 1200 if quick else None
+                max_paths = 600 if quick else None
             elif name != 'g':
                 # larger graph: the refused and the plain successful requests are the code paths already covered edge by
                 # edge in g; here cover the crash / failing-write / reload / repeated-request transitions, within a budget
@@ -132,8 +132,10 @@ def run(ctx, replay=None):
     all_traces = [t for t in all_traces if t['cfg']['kind'] != 'conc']
     rep = engine.run_driver(ctx, 'privval', all_traces, timeout=3000)
     engine.collect(ctx, rep, all_traces, 'privval')
+    ctx.log('replayed %d single-requester behaviours (%d steps)' % (rep['traces'], rep['steps']))
     if conc_traces:
         rep2 = engine.run_driver(ctx, 'privval', conc_traces, timeout=3000)
+        ctx.log('replayed %d two-requester behaviours (%d steps)' % (rep2['traces'], rep2['steps']))
         engine.collect(ctx, rep2, conc_traces, 'privval')
         for k in ('traces', 'steps', 'checks'):
             rep[k] += rep2[k]
